@@ -123,7 +123,7 @@ def jobs(tier):
 
 
 def main(report, tier):
-    from . import closure
-    js = jobs(tier) + closure.jobs(tier)
+    from . import closure, mnode
+    js = jobs(tier) + closure.jobs(tier) + mnode.jobs_for('C11', tier)
     results = runner.run_tasks(js)
     return summarize(report, results, 'C11')
